@@ -121,6 +121,17 @@ def rule_entry(prog, rep):
                                 continue
                     n += 1
                     ok = fn2.name in PRIVATE or fn2.name in PUBLIC
+                    encl_cls = [cn for cn in ast.walk(mod.tree) if isinstance(cn, ast.ClassDef) and any(x is fn2 for x in cn.body)]
+                    if not ok and encl_cls and encl_cls[0].name.startswith("_"):
+                        # a private helper class standing for a closure: its methods run where its instances are
+                        # built and used - allowed iff every instantiation is inside a private core
+                        ci = prog.classes.get(f"{mod.name}.{encl_cls[0].name}")
+                        sites = [c2 for c2 in ast.walk(mod.tree) if isinstance(c2, ast.Call) and isinstance(c2.func, ast.Name)
+                                 and c2.func.id == encl_cls[0].name]
+                        if ci is not None and not prog.is_subclass(ci, DIST) and sites and all(
+                                (_outermost_def(mod.tree, c2) is not None and _outermost_def(mod.tree, c2).name in PRIVATE)
+                                for c2 in sites):
+                            ok = True
                     if fn2.name in PUBLIC:
                         ok = isinstance(node.value, ast.Name) and node.value.id == "self"
                     if fn2.name in PRIVATE:
@@ -319,6 +330,18 @@ def rule_freeze(prog, rep):
             len(n.args) == 2 and isinstance(n.args[1], ast.Name) and n.args[1].id in static_names for n in combs)
         reassigned = sum(1 for st in ast.walk(fn) for t2 in (st.targets if isinstance(st, ast.Assign) else [])
                          for nm in ast.walk(t2) if isinstance(nm, ast.Name) and static_names and nm.id == static_names[0])
+        if not (ok_c and reassigned == 1) and not [x for x in ast.walk(fn) if isinstance(x, (ast.For, ast.While))]:
+            # the rebuild may live in a helper / callable object: look at the evaluated result instead
+            try:
+                whole = Interp(prog).eval_function(f"{modname}.{fname}", [("sym", a.arg.upper()) for a in fn.args.args])
+                whole = Interp(prog).as_term(whole) if not isinstance(whole, tuple) else whole
+                tcomb = [s2 for s2 in walk(whole) if s2[0] == "call" and s2[1] == ("ext", "equinox.combine")]
+                parts = {key(s2): s2 for s2 in walk(whole) if s2[0] == "call" and s2[1] == ("ext", "equinox.partition")}
+                stat = ("sub", next(iter(parts.values())), C(1)) if len(parts) == 1 else None
+                if stat is not None and tcomb and all(len(s2[2]) == 2 and same(s2[2][1], stat) for s2 in tcomb):
+                    ok_c, reassigned = True, 1
+            except Exception:
+                pass
         rep.check(ok_c and reassigned == 1, "C12.freeze", site, f"{fname}:combine(params, same static)",
                   "the model is rebuilt with the static half of this partition",
                   f"combine calls {[ast.unparse(n) for n in combs]} / static reassigned {reassigned} times")
